@@ -283,6 +283,22 @@ Definition end_loc (fixed : bool) (cs : list chr) : Loc :=
         (wrap32 (fold_right (fun c n => chr_len c + n) 0 cs))
         (wrap32 (nlen cs)).
 
+(** Formatter::push (format.rs:1500-1505): start = end_loc(output before the fragment),
+    end = end_loc(output after it).  On an exported final output text [out] and a glyph-map
+    entry (s, e): both positions are the end_loc of the output prefix of their byte length. *)
+Fixpoint take_bytes (cs : list chr) (b : N) : option (list chr) :=
+  if b =? 0 then Some [] else
+  match cs with
+  | [] => None
+  | c :: r => if chr_len c <=? b then
+                match take_bytes r (b - chr_len c) with Some p => Some (c :: p) | None => None end
+              else None
+  end.
+Definition out_loc_ok (out : list chr) (l : Loc) : bool :=
+  match take_bytes out (byte_pos l) with Some p => loc_eqb l (end_loc true p) | None => false end.
+Definition push_ok (out : list chr) (se : Loc * Loc) : bool :=
+  out_loc_ok out (fst se) && out_loc_ok out (snd se) && (byte_pos (fst se) <=? byte_pos (snd se)).
+
 (** * What the tie evaluates on exported cases *)
 Definition mk_loc4 (b c l co : N) : Loc := mkLoc l co b c.
 (** every reported Loc is the one its byte offset should have *)
@@ -307,11 +323,13 @@ Fixpoint coverage (i : input) (b : N) (ts es : list span) : bool :=
   | s :: r => (seg_ws s || covered ts b (seg_len s) || covered es b (seg_len s)) && coverage r (b + seg_len s) ts es
   end.
 
-Record tcase := TC { tc_in : input; tc_toks : list span; tc_errs : list span; tc_others : list span }.
+Record tcase := TC { tc_in : input; tc_toks : list span; tc_errs : list span; tc_others : list span;
+                     tc_out : list chr; tc_gout : list span }.
 Definition tcase_ok (c : tcase) : bool :=
   forallb (span_ok (tc_in c)) (tc_toks c) && forallb (span_ok (tc_in c)) (tc_errs c) &&
   forallb (span_ok (tc_in c)) (tc_others c) &&
-  ordered 0 (tc_toks c) && coverage (tc_in c) 0 (tc_toks c) (tc_errs c).
+  ordered 0 (tc_toks c) && coverage (tc_in c) 0 (tc_toks c) (tc_errs c) &&
+  forallb (push_ok (tc_out c)) (tc_gout c).
 
 Fixpoint failing_from {A} (f : A -> bool) (n : N) (l : list A) : list N :=
   match l with [] => [] | x :: r => if f x then failing_from f (n + 1) r else n :: failing_from f (n + 1) r end.
